@@ -93,12 +93,13 @@ func fileNodes(enc string) ([]string, bool) {
 //	reparsed: embed(reparse_ws(decode fmtser n)) must agree with decode(astser n') where n' is the same node of
 //	          parse(format file): the model's re-parsed tree (trailing-space marks, Whitespace nodes, nesting) against what
 //	          the real parser builds from the real formatter's output, Whitespace nodes compared the way the renderer reads them.
-func embedFamily(c *core.Ctx, cases []fmttie.Case, differs map[string]string) {
+func embedFamily(c *core.Ctx, cases []fmttie.Case, differs map[string]string) (guardFails, guardsKnown map[string]bool) {
 	debug := os.Getenv("C08_DEBUG") != ""
 	type item struct {
-		cs       fmttie.Case
-		node     int
-		reparsed bool
+		cs        fmttie.Case
+		node      int
+		reparsed  bool
+		guardOnly bool // formatted text has another node structure: only the guards (computed from the original) are read
 	}
 	var items []item
 	var reqs []drv.Req
@@ -116,11 +117,19 @@ func embedFamily(c *core.Ctx, cases []fmttie.Case, differs map[string]string) {
 			continue
 		}
 		for k := range fn {
-			items = append(items, item{cs, k, false})
+			items = append(items, item{cs, k, false, false})
 			reqs = append(reqs, drv.Req{Fn: "embed", Args: [][]byte{[]byte(fn[k]), []byte(an[k])}})
 		}
 		if !cs.SameStructure {
-			c.Hist("reparsed: formatted text parses to another node structure (known finding), not compared")
+			// the trees are not compared (the parser is not modelled), but the guards of the theorem are functions of the
+			// original tree alone: they decide whether the difference may be filed under a known shape
+			c.Hist("reparsed: formatted text parses to another node structure, trees not compared, guards evaluated")
+			for k := range fn {
+				if strings.HasPrefix(fn[k], "l4:a5:templ") {
+					items = append(items, item{cs, k, true, true})
+					reqs = append(reqs, drv.Req{Fn: "reparsed", Args: [][]byte{[]byte(fn[k]), []byte(an[k])}})
+				}
+			}
 			continue
 		}
 		tf2, err := parser.ParseString(cs.P1)
@@ -140,14 +149,15 @@ func embedFamily(c *core.Ctx, cases []fmttie.Case, differs map[string]string) {
 			if !strings.HasPrefix(fn[k], "l4:a5:templ") {
 				continue // reparse changes templates only
 			}
-			items = append(items, item{cs, k, true})
+			items = append(items, item{cs, k, true, false})
 			reqs = append(reqs, drv.Req{Fn: "reparsed", Args: [][]byte{[]byte(fn[k]), []byte(an2[k])}})
 		}
 	}
 	res := c.Model(reqs)
 	embedOK, reparsedOK := true, true
 	nEmbed, nRep := 0, 0
-	guardFails := map[string]bool{} // input name -> some template fails a guard
+	guardFails = map[string]bool{}  // input name -> some template fails a guard
+	guardsKnown = map[string]bool{} // input name -> the guards of its templates were evaluated
 	compared := map[string]bool{}   // input name -> its templates went through the reparsed tie
 	for i, it := range items {
 		r := res[i]
@@ -182,7 +192,10 @@ func embedFamily(c *core.Ctx, cases []fmttie.Case, differs map[string]string) {
 			}
 			continue
 		}
-		compared[it.cs.Name] = true
+		guardsKnown[it.cs.Name] = true
+		if !it.guardOnly {
+			compared[it.cs.Name] = true
+		}
 		if string(r[2])+string(r[3])+string(r[4]) != "111" {
 			guardFails[it.cs.Name] = true
 			if debug {
@@ -193,6 +206,9 @@ func embedFamily(c *core.Ctx, cases []fmttie.Case, differs map[string]string) {
 			c.Hist("reparsed: template satisfies the guards of C08_render_preserved_partial")
 		} else {
 			c.Hist("reparsed: template fails a guard of C08_render_preserved_partial (tight follower / non-canonical white space / depth)")
+		}
+		if it.guardOnly {
+			continue
 		}
 		if string(r[1]) == "1" {
 			c.Hist("reparsed: model tree = real re-parsed tree as the renderer reads it")
@@ -207,10 +223,10 @@ func embedFamily(c *core.Ctx, cases []fmttie.Case, differs map[string]string) {
 			c.Fail("tie", "reparsed: model re-parse = real parse of the formatted text", "", map[string]any{"file": it.cs.Name, "node": it.node, "source": it.cs.Src, "formatted": it.cs.P1}, detail)
 		}
 	}
-	// the theorem's prediction on the real generator: guards hold on every template => formatting does not change the program
-	predicted := true
+	// the theorem's prediction on the real generator: guards hold on every template => formatting does not change the
+	// program (the failures are reported by Run, which knows the cause of each difference)
 	for _, cs := range cases {
-		if !compared[cs.Name] {
+		if !guardsKnown[cs.Name] {
 			continue
 		}
 		shape, d := differs[cs.Name]
@@ -222,19 +238,14 @@ func embedFamily(c *core.Ctx, cases []fmttie.Case, differs map[string]string) {
 		case guardFails[cs.Name]:
 			c.Hist("a guard fails, program differs (" + shape + ")")
 		default:
-			predicted = false
-			c.Hist("guards hold, program differs")
-			if c.NFails("guards of C08_render_preserved_partial hold => program generated from the formatted file is unchanged") < 3 {
-				c.Fail("property", "guards of C08_render_preserved_partial hold => program generated from the formatted file is unchanged", "guards-hold-program-differs",
-					map[string]any{"file": cs.Name, "source": cs.Src, "formatted": cs.P1, "difference": shape},
-					"every template satisfies trailing_semantics_preserved, parser_shaped and shallow, yet the generated program changes")
-			}
+			c.Hist("guards hold, program differs (" + shape + ")")
 		}
 	}
-	c.Oblige("correspondence", "on every accepted input whose templates all satisfy the guards of C08_render_preserved_partial, the program generated from the formatted file equals the program generated from the original", predicted, "")
 	c.Extra["embed_nodes"] = nEmbed
 	c.Extra["reparsed_templates"] = nRep
+	_ = compared
 	c.Oblige("correspondence", "both wire forms of every accepted input split into the same number of top-level nodes", splitOK, "")
 	c.Oblige("correspondence", "embed (formatter AST -> generator AST) agrees with the generator-side serialisation of the same parse, positions aside, on every top-level node of every accepted input", embedOK, "")
 	c.Oblige("correspondence", "embed(reparse_ws x) agrees with the real parse of the real formatter's output (trailing-space marks, Whitespace nodes as rendered, nesting) on every template of every accepted input with unchanged node structure", reparsedOK, "")
+	return guardFails, guardsKnown
 }
